@@ -3,6 +3,7 @@ from ..engine.prov import const_value, strip_casts, walk, walk_deep, show
 from ..engine.atomics import inventory, is_acquire, is_release
 from ..engine.dtable import canon
 from ..engine.fold import fold
+from ..engine import panics
 from .c12 import mentions
 from .futexflavour import check_flavour
 from . import threads as T
@@ -70,46 +71,8 @@ def run_one(ck, prog):
     builds = [b["id"] for b in sp["blocks"] for s in b["stmts"] if s["k"] == "assign" and s["rv"]["k"] == "agg" and (s["rv"].get("adt") or "").endswith("JoinHandle")]
     ck.ob("C05.1", "handle-built-after-clone", bool(builds) and all(cfg.dominates(cb, b) for b in builds), fn=T.SPAWN, detail="the JoinHandle must be built after the clone call")
 
-    # ---- C05.2 failure paths give back what was acquired ---------------------------------------------------------------
-    resources = {
-        "join-block": (T.call_blocks(ctx, T.TSM + "init"), lambda t: t.get("callee") == T.TSM + "dealloc"),
-        "closure-box": (T.call_blocks(ctx, T.M + "onwed_split_fn_once"), lambda t: (t.get("callee") or "").endswith("Box::<T>::from_raw") or (t.get("callee") or "").endswith("mem::drop")),
-        "stack-mapping": (T.call_blocks_suffix(ctx, "unistd::mmap::mmap"), lambda t: (t.get("callee") or "").endswith("unistd::mmap::munmap")),
-        "tls-block": ([bb for bb in T.call_blocks_suffix(ctx, "Box::<T>::into_raw") ], lambda t: (t.get("callee") or "").endswith("Box::<T>::from_raw")),
-    }
-    ok_blocks = {b["id"] for b in sp["blocks"] for s in b["stmts"] if s["k"] == "assign" and s["dst"]["l"] == 0 and s["rv"]["k"] == "agg" and s["rv"].get("variant") == "Ok"}
-    for name, (creators, is_free) in resources.items():
-        ck.ob("C05.2", f"anchor|{name}", len(creators) >= 1, fn=T.SPAWN, detail=f"creation site of the {name} not found")
-        for cr in creators[:1]:
-            frees = set()
-            for bb, t in cfg.calls(is_free):
-                args = ctx.args(bb)
-                if args and mentions(args[0], ctx.prov, lambda x: x[0] == "call" and x[3] == cr):
-                    frees.add(bb)
-            # start after the creator succeeded: for `?`-creators the Continue edge, else the return edge
-            t = cfg.term(cr)
-            start = t.get("t")
-            succ_edges = []
-            for sb in cfg.live_blocks():
-                if cfg.term(sb)["k"] != "switch":
-                    continue
-                for e in cfg.succ[sb]:
-                    for f in ctx.edge_facts(e):
-                        if f[0] == "variant" and f[2] in ("Continue", "Ok"):
-                            x = strip_casts(f[1])
-                            if isinstance(x, tuple) and x[0] == "call" and (x[3] == cr or (x[2] and isinstance(strip_casts(x[2][0]), tuple) and strip_casts(x[2][0])[0] == "call" and strip_casts(x[2][0])[3] == cr)):
-                                succ_edges.append(e)
-            starts = [e.dst for e in succ_edges] or [start]
-            r = set()
-            for s0 in starts:
-                r |= cfg.reachable_from(s0, avoid=frees | ok_blocks)
-            leaks = [rb for rb in cfg.return_blocks() if rb in r]
-            path = None
-            if leaks:
-                path = cfg.find_path(starts[0], lambda b: b in leaks, avoid=frees | ok_blocks)
-            ck.ob("C05.2", f"released-on-failure|{name}", not leaks, fn=T.SPAWN, site=ctx.site(cr),
-                  detail=f"spawn can return an error after acquiring the {name} without releasing it (leak per failed spawn)",
-                  path=cfg.render_path(path) if path else None)
+    # ---- C05.2 failure paths give back what was acquired (shared with C06.6) ------------------------------------------
+    T.check_failure_release(ck, prog, "C05.2")
 
     # ---- C05.3 exactly-once execution -------------------------------------------------------------------------------------
     sf = prog.fns.get(T.START_FN)
@@ -225,3 +188,86 @@ def run_one(ck, prog):
         off_g = [x for x in walk_deep(list(c6.ret_expr().values())[0], c6.prov) if x[0] == "const" and x[2] and x[2].endswith("FUTEX_OFFSET")]
         ck.ob("C05.6", "exit-word-offset", bool(off_g), fn=gf["path"], detail="get_futex must address the block at FUTEX_OFFSET (where init wrote the exit word)")
     check_flavour(ck, prog, "C05.6f")
+    check_layout(ck, prog)
+
+
+def check_layout(ck, prog):
+    """C05.8 the join block's layout: the fields are pushed one after another, each step continuing from the previous step's
+    (size, align); the allocation is made with the size padded to, and the alignment of, the LAST step (which includes the result
+    slot's alignment) - a result type aligned more strictly than the header would otherwise sit misaligned in the block."""
+    M = T.M
+    lf = next((f for p2, f in prog.fns.items() if p2.startswith(T.TSM) and "layout_thread_shared_memory" in p2), None)
+    if not ck.anchor("C05.8", "Tsm::layout_thread_shared_memory", lf):
+        return
+    c = prog.ctx(lf)
+    pushes = sorted(bb for bb, t in c.cfg.calls(lambda t: (t.get("callee") or "").endswith("spawn::push_aligned")))
+    ck.floor("C05.8", "push_aligned steps", len(pushes), 5)
+
+    def is_acc(e, which, src):
+        """e == Layout::<which>(&<call at block src>)"""
+        e = strip_casts(e)
+        return isinstance(e, tuple) and e[0] == "call" and (e[1] or "").endswith("Layout::" + which) and e[2] and is_call_at(e[2][0], src)
+
+    def is_call_at(e, src):
+        e = strip_casts(e)
+        n = 0
+        while isinstance(e, tuple) and e[0] in ("ref", "addr", "deref") and n < 6:
+            e = strip_casts(e[2] if e[0] in ("ref", "addr") else e[1])
+            n += 1
+        return isinstance(e, tuple) and e[0] == "call" and e[3] == src
+    ok_chain = True
+    why = ""
+    for i, bb in enumerate(pushes):
+        a = c.args(bb)
+        if i == 0:
+            good = fold(a[0]) == 0 and fold(a[1]) == 0
+        else:
+            good = is_acc(a[0], "size", pushes[i - 1]) and is_acc(a[1], "align", pushes[i - 1])
+        if not good:
+            ok_chain = False
+            why = f"step {i} continues from ({show(a[0])[:60]}, {show(a[1])[:60]})"
+    ck.ob("C05.8", "layout-steps-chain", ok_chain, fn=lf["path"], detail=why or "each push_aligned must continue from the previous step's size and alignment (the first from 0, 0)")
+    fin = [bb for bb, t in c.cfg.calls(lambda t: (t.get("callee") or "").endswith("Layout::from_size_align_unchecked"))]
+    if ck.ob("C05.8", "anchor|final-layout", len(fin) == 1 and bool(pushes), fn=lf["path"], detail=f"final Layout constructions: {len(fin)}"):
+        a = c.args(fin[0])
+        last = pushes[-1]
+        align_ok = is_acc(a[1], "align", last)
+        sz = strip_casts(a[0])
+        size_ok = isinstance(sz, tuple) and sz[0] == "bin" and sz[1] == "Add" and is_acc(sz[2], "size", last) and isinstance(strip_casts(sz[3]), tuple) and strip_casts(sz[3])[0] == "call" and \
+            (strip_casts(sz[3])[1] or "").endswith("spawn::padding") and is_acc(strip_casts(sz[3])[2][0], "size", last) and is_acc(strip_casts(sz[3])[2][1], "align", last)
+        ck.ob("C05.8", "block-aligned-as-the-last-step", align_ok, fn=lf["path"], site=c.site(fin[0]),
+              detail=f"the block must be allocated with the alignment accumulated over ALL steps including the result slot; it uses {show(a[1])[:120]}")
+        ck.ob("C05.8", "block-size-padded-to-its-alignment", size_ok, fn=lf["path"], site=c.site(fin[0]), detail=f"size must be last.size() + padding(last.size(), last.align()); got {show(a[0])[:160]}")
+        gen = str(c.cfg.term(last).get("generic") or "")
+        ck.ob("C05.8", "last-step-is-the-result-slot", "UnsafeCell" in gen and "Option" in gen, fn=lf["path"], detail=f"the last step must push UnsafeCell<Option<T>>; generic arguments: {gen}")
+    pa = prog.fns.get(M + "push_aligned")
+    if ck.anchor("C05.8", "push_aligned", pa):
+        c2 = prog.ctx(pa)
+        fin2 = [bb for bb, t in c2.cfg.calls(lambda t: (t.get("callee") or "").endswith("Layout::from_size_align_unchecked"))]
+        ok = False
+        if len(fin2) == 1:
+            a = c2.args(fin2[0])
+            s0 = canon(strip_casts(a[0]))
+            ok = s0.replace(" ", "") in ("((p1Addpadding(p1,align_of()))Addsize_of())",) and canon(strip_casts(a[1])).replace(" ", "") == "max(p2,align_of())"
+        ck.ob("C05.8", "push_aligned-formula", ok, fn=pa["path"], detail=f"push_aligned must return (base + padding(base, align_of T) + size_of T, max(max_align, align_of T)); found {[canon(x) for x in c2.args(fin2[0])] if fin2 else None}")
+    pd = prog.fns.get(M + "padding")
+    if ck.anchor("C05.8", "padding", pd):
+        c3 = prog.ctx(pd)
+        vals = sorted(canon(strip_casts(v)).replace(" ", "") for v in c3.ret_expr().values())
+        ok = len(vals) <= 2 and all(v in ("0", "(p2Sub(p1Remp2))") for v in vals) and any(v != "0" for v in vals)
+        if len(c3.ret_expr()) == 1:
+            # single return of a merged value: look at the assignments to _0
+            vals = sorted({canon(strip_casts(c3.prov.rvalue(st["rv"], (b["id"], i)))).replace(" ", "") for b in pd["blocks"] for i, st in enumerate(b["stmts"]) if st["k"] == "assign" and st["dst"]["l"] == 0})
+            ok = set(vals) == {"0", "(p2Sub(p1Remp2))"}
+        ck.ob("C05.8", "padding-formula", ok, fn=pd["path"], detail=f"padding(base, align) must be 0 when base % align == 0 and align - base % align otherwise; results {vals}")
+    mx = prog.fns.get(M + "max")
+    if ck.anchor("C05.8", "max", mx):
+        c4 = prog.ctx(mx)
+        res = {}
+        for b in mx["blocks"]:
+            for i, st in enumerate(b["stmts"]):
+                if st["k"] == "assign" and st["dst"]["l"] == 0:
+                    facts = panics.dominating_facts(c4, b["id"]) if "panics" in globals() else []
+                    res[canon(c4.prov.rvalue(st["rv"], (b["id"], i)))] = [(f[1], canon(f[2]), canon(f[3])) for f in facts if f[0] == "cmp"]
+        ok = res.get("p1") in ([("Gt", "p1", "p2")], [("Ge", "p1", "p2")]) and res.get("p2") in ([("Le", "p1", "p2")], [("Lt", "p1", "p2")])
+        ck.ob("C05.8", "max-is-max", ok, fn=mx["path"], detail=f"max(a, b) must return a when a > b and b otherwise; found {res}")
